@@ -131,6 +131,40 @@ theorem prevnext_labelled (banned : List String) (cs : List Cand) (c : Cand)
     · have := hbest c0 hc0 hb0 e
       omega
 
+/-- **The labelled anchor is returned**, with the scores derived in the model rather than read from the
+implementation: among the anchors of a page, let `A` be a candidate with at least 50 points whose URL
+is not banned, and let every candidate with another URL score less (for a conventional pager this is
+what `labelled_anchor_wins` gives: the labelled anchor to the neighbouring page is 41 points ahead of
+every numbered one).  Then the prev/next finder returns `A`'s URL. -/
+theorem labelled_anchor_is_returned (next : Bool) (Fs : List LinkScore.Facts) (A : LinkScore.Facts) (sa : Int)
+    (hA : A ∈ Fs) (hv : LinkScore.verdict next A = .cand sa) (hs : sa ≥ 50)
+    (hnb : ∀ G ∈ Fs, LinkScore.verdict next G = .banned → G.href ≠ A.href)
+    (hbest : ∀ G ∈ Fs, ∀ sg, LinkScore.verdict next G = .cand sg → G.href ≠ A.href → sg < sa) :
+    LinkScore.findOutlink next Fs = A.href := by
+  unfold LinkScore.findOutlink
+  simp only []
+  apply prevnext_labelled _ _ ⟨A.href, sa⟩
+  · simp only [List.mem_filterMap]
+    exact ⟨A, hA, by rw [hv]⟩
+  · intro hmem
+    simp only [List.mem_filterMap] at hmem
+    obtain ⟨G, hG, hg⟩ := hmem
+    split at hg
+    · rename_i hgb
+      simp only [Option.some.injEq] at hg
+      exact hnb G hG hgb hg
+    · cases hg
+  · exact hs
+  · intro c hc _ hne
+    simp only [List.mem_filterMap] at hc
+    obtain ⟨G, hG, hgv⟩ := hc
+    split at hgv
+    · rename_i sg hgc
+      simp only [Option.some.injEq] at hgv
+      subst hgv
+      exact hbest G hG sg hgc hne
+    · cases hgv
+
 example : prevNextResult [] [⟨"http://e.com/a?page=1", 25⟩, ⟨"http://e.com/a?page=3", 100⟩, ⟨"http://e.com/a?page=3", 33⟩] =
     "http://e.com/a?page=3" := by decide +kernel
 
